@@ -316,4 +316,92 @@ def uniformDashKids (ad : Bool) : List (CName × Coll) → Bool
 end
 
 end Coll
+
+/-! ### object model for freshness (C17)
+
+    `Collection.configuration` / `task_with_config` build their result with `copy_dict` and `merge_dicts`.
+    To state that the mapping returned shares no dict OBJECT with a stored configuration, dicts are
+    modelled with the address of the object they are; an allocation counter hands out fresh addresses.
+    (Only used by the `configuration_fresh` theorems; the harness checks freshness on the real objects.) -/
+
+/-- settings as Python OBJECTS: every dict carries the address of the dict object it is -/
+inductive OVal where
+  | leaf : Leaf → OVal
+  | dict : Nat → List (Key × OVal) → OVal
+
+abbrev OKVs := List (Key × OVal)
+
+namespace OVal
+
+def lookupO (k : Key) : OKVs → Option OVal
+  | [] => none
+  | (k', v) :: r => if k = k' then some v else lookupO k r
+
+def insertO (k : Key) (v : OVal) : OKVs → OKVs
+  | [] => [(k, v)]
+  | (k', v') :: r => if k = k' then (k, v) :: r else (k', v') :: insertO k v r
+
+mutual
+/-- the value a dict object stands for -/
+def erase : OVal → Val
+  | .leaf l => .leaf l
+  | .dict _ kvs => .dict (eraseL kvs)
+def eraseL : OKVs → KVs
+  | [] => []
+  | (k, v) :: r => (k, erase v) :: eraseL r
+end
+
+mutual
+/-- addresses of all dict objects reachable from a value -/
+def addrs : OVal → List Nat
+  | .leaf _ => []
+  | .dict a kvs => a :: addrsL kvs
+def addrsL : OKVs → List Nat
+  | [] => []
+  | (_, v) :: r => addrs v ++ addrsL r
+end
+
+mutual
+/-- one key of `merge_dicts(base, updates)`: the new object for `base[k]`, and the allocation counter.
+    An existing dict object of `base` is kept (mutated in place: same address); a dict coming from
+    `updates` is never stored itself: it is re-created at a fresh address by `copy_dict`
+    (= `merge_dicts({}, value)`); leaves are copied by value.  `none` = AmbiguousMergeError. -/
+def mergeV (n : Nat) (old : Option OVal) : OVal → Option (OVal × Nat)
+  | .leaf l =>
+    match old with
+    | some (.dict _ _) => none
+    | _ => some (.leaf l, n)
+  | .dict _ u =>
+    match old with
+    | some (.dict b bk) => (mergeL n bk u).map fun r => (.dict b r.1, r.2)
+    | some (.leaf _) => none
+    | none => (mergeL (n + 1) [] u).map fun r => (.dict n r.1, r.2)
+/-- `merge_dicts(base, updates)` on objects -/
+def mergeL (n : Nat) (base : OKVs) : OKVs → Option (OKVs × Nat)
+  | [] => some (base, n)
+  | (k, v) :: r =>
+    match mergeV n (lookupO k base) v with
+    | none => none
+    | some w => mergeL w.2 (insertO k w.1 base) r
+end
+
+/-- `copy_dict(obj)` = `merge_dicts({}, obj)` -/
+def copyO (n : Nat) (v : OVal) : Option (OVal × Nat) := mergeV n none v
+
+/-- how `task_with_config` builds its result from the STORED configuration objects on the path
+    (root first): the innermost `configuration()` is a `copy_dict` of the stored dict; going outwards
+    `ours = copy_dict(stored)` and `merge_dicts(config, ours)` -/
+def buildAlong (n : Nat) : List OVal → Option (OVal × Nat)
+  | [] => none
+  | [x] => copyO n x
+  | outer :: y :: rest =>
+    match buildAlong n (y :: rest) with
+    | none => none
+    | some r =>
+      match copyO r.2 outer with
+      | none => none
+      | some ours => mergeV ours.2 (some r.1) ours.1
+
+end OVal
+
 end Inv
